@@ -71,6 +71,6 @@ RejectedUnchanged == [][ last'.rejected => cfg' = cfg ]_vars
 
 TypeOK == /\ \A f \in NF : cfg.n[f] \in {"def", "p1", "p2", "zero", "neg"}
           /\ \A f \in TF : cfg.t[f] \in {"def", "p1", "p2", "zero", "neg", "nilptr"}
-          /\ cfg.log \in {"nil", "l1", "l2"} /\ cfg.rlc \in {"def", "r1", "nil"}
+          /\ cfg.log \in {"nil", "l1", "l2"} /\ cfg.rlc \in {"def", "r1", "r2", "nil"}
           /\ cfg.squash = "root"      \* Squash is never changed at runtime
 =============================================================================
